@@ -255,6 +255,75 @@ theorem putUvarint_length_two (n : Nat) (h1 : 128 ≤ n) (h2 : n < 16384) : (put
 theorem putUvarint_length_three (n : Nat) (h1 : 16384 ≤ n) (h2 : n < 2097152) : (putUvarint n).length = 3 := by
   rw [putUvarint, if_neg (by omega), putUvarint, if_neg (by omega), putUvarint, if_pos (by omega)]; rfl
 
+theorem putUvarint_length_pos (n : Nat) : 1 ≤ (putUvarint n).length := by
+  rw [putUvarint]; split <;> simp
+
+theorem uint8_ofNat_toNat_self (b : UInt8) : UInt8.ofNat b.toNat = b := by
+  apply UInt8.toNat_inj.mp
+  rw [uint8_ofNat_toNat _ b.toNat_lt]
+
+/-- Every byte string `ReadUvarint` accepts for a value is at least as long as
+`PutUvarint` of the value, and equal length means equal bytes. -/
+theorem readUvarintGo_min (r : Bytes) : ∀ (i x v : Nat) (r' : Bytes), readUvarintGo i x r = .ok (v, r') →
+    ∃ pre w, r = pre ++ r' ∧ v = x + w * 2 ^ (7 * i) ∧ (putUvarint w).length ≤ pre.length ∧
+      ((putUvarint w).length = pre.length → pre = putUvarint w) := by
+  induction r with
+  | nil => intro i x v r' h; simp [readUvarintGo] at h
+  | cons b rest ih =>
+    intro i x v r' h
+    simp only [readUvarintGo] at h
+    split at h
+    · cases h
+    · split at h
+      · rename_i hb
+        split at h
+        · cases h
+        · simp only [Res.ok.injEq, Prod.mk.injEq] at h
+          have hp : putUvarint b.toNat = [b] := by
+            rw [putUvarint, if_pos hb, uint8_ofNat_toNat_self]
+          refine ⟨[b], b.toNat, by rw [← h.2]; rfl, h.1.symm, by rw [hp]; simp, fun _ => hp.symm⟩
+      · rename_i hb
+        obtain ⟨pre', w', h1, h2, h3, h4⟩ := ih _ _ _ _ h
+        have hbl : b.toNat < 256 := b.toNat_lt
+        refine ⟨b :: pre', (b.toNat - 128) + 128 * w', by rw [h1]; rfl, ?_, ?_, ?_⟩
+        · rw [h2]
+          have e2 : 2 ^ (7 * (i + 1)) = 128 * 2 ^ (7 * i) := by
+            rw [show 7 * (i + 1) = 7 + 7 * i by omega, Nat.pow_add]
+          rw [e2]
+          generalize 2 ^ (7 * i) = P
+          rw [Nat.add_mul, Nat.add_assoc, Nat.mul_assoc, Nat.mul_left_comm]
+        · by_cases hw : w' = 0
+          · subst hw
+            rw [putUvarint, if_pos (by omega)]
+            simp
+          · rw [putUvarint, if_neg (by omega)]
+            have e1 : (b.toNat - 128 + 128 * w') / 128 = w' := by omega
+            rw [e1]
+            simp only [List.length_cons]
+            omega
+        · intro hl
+          by_cases hw : w' = 0
+          · subst hw
+            rw [putUvarint, if_pos (by omega)] at hl
+            have := putUvarint_length_pos 0
+            simp only [List.length_cons, List.length_nil] at hl
+            omega
+          · rw [putUvarint, if_neg (by omega)] at hl ⊢
+            have e1 : (b.toNat - 128 + 128 * w') / 128 = w' := by omega
+            have e2 : (b.toNat - 128 + 128 * w') % 128 + 128 = b.toNat := by omega
+            rw [e1] at hl
+            rw [e1, e2, uint8_ofNat_toNat_self]
+            simp only [List.length_cons] at hl
+            rw [h4 (by omega)]
+
+theorem readUvarint_min (r : Bytes) (v : Nat) (r' : Bytes) (h : readUvarint r = .ok (v, r')) :
+    ∃ pre, r = pre ++ r' ∧ (putUvarint v).length ≤ pre.length ∧
+      ((putUvarint v).length = pre.length → pre = putUvarint v) := by
+  obtain ⟨pre, w, h1, h2, h3, h4⟩ := readUvarintGo_min r 0 0 v r' h
+  simp only [Nat.mul_zero, Nat.pow_zero, Nat.mul_one, Nat.zero_add] at h2
+  subst h2
+  exact ⟨pre, h1, h3, h4⟩
+
 /-! ## reader combinators -/
 
 theorem readChunk_write (d rest : Bytes) (hlen : d.length ≤ chunkSizeLimit) (hne : d ++ rest ≠ []) :
@@ -262,7 +331,8 @@ theorem readChunk_write (d rest : Bytes) (hlen : d.length ≤ chunkSizeLimit) (h
   unfold readChunk writeChunk
   rw [List.append_assoc, readUvarint_put _ _ (by unfold chunkSizeLimit at hlen; omega)]
   simp only [Res.ok_bind]
-  rw [if_neg (by omega), if_neg (by simp), if_neg (by simpa using hne)]
+  rw [if_neg (by simp only [List.length_append]; omega), if_neg (by omega), if_neg (by simp),
+    if_neg (by simpa using hne)]
   simp
 
 theorem readChunk_noPanic (r : Bytes) : NoPanic (readChunk r) := by
@@ -335,20 +405,6 @@ theorem readFixedN_length (n k : Nat) (r : Bytes) (vs : List Nat) (r' : Bytes)
       | panic => rw [h2] at h; simp at h
     | error => rw [h1] at h; simp at h
     | panic => rw [h1] at h; simp at h
-
-theorem readSome_noPanic (n : Nat) (r : Bytes) : NoPanic (readSome n r) := by
-  unfold readSome; apply NoPanic.ite <;> simp
-
-theorem readSome_full (n : Nat) (b rest : Bytes) (h : b.length = n) (hn : 0 < n) :
-    readSome n (b ++ rest) = .ok (b, rest) := by
-  unfold readSome
-  have : (b ++ rest).isEmpty = false := by
-    cases b with
-    | nil => simp at h; omega
-    | cons x xs => simp
-  rw [this]
-  subst h
-  simp
 
 theorem magic_lengths : magicR1.length = 2 ∧ magicR2.length = 2 ∧ magicR3.length = 2 ∧ magicGS.length = 2 ∧
     magicES.length = 2 := by decide
@@ -491,6 +547,78 @@ theorem pointSign_packed (bits : List Bool) (j : Nat) (hj : j < bits.length) :
     rw [hb] at h
     simp only [Option.map_some, Option.some.injEq] at h
     simp [h]
+
+theorem byteOfBits_bitsOfByte_nat : ∀ n, n < 256 → byteOfBits (bitsOfByte (UInt8.ofNat n)) = UInt8.ofNat n := by
+  decide +kernel
+
+theorem byteOfBits_bitsOfByte (x : UInt8) : byteOfBits (bitsOfByte x) = x := by
+  have := byteOfBits_bitsOfByte_nat x.toNat x.toNat_lt
+  rwa [uint8_ofNat_toNat_self] at this
+
+theorem bitsToBytes_bytesToBits (data : Bytes) : bitsToBytes (bytesToBits data) = data := by
+  induction data with
+  | nil => simp [bytesToBits, bitsToBytes]
+  | cons x xs ih =>
+    simp only [bytesToBits, List.flatMap_cons] at ih ⊢
+    have hl := bitsOfByte_length x
+    match hb : bitsOfByte x, hl with
+    | b0 :: rest, hl =>
+      simp only [List.cons_append, bitsToBytes]
+      have h8 : ((b0 :: (rest ++ List.flatMap bitsOfByte xs)).take 8) = b0 :: rest := by
+        have : (b0 :: rest).length = 8 := by rw [← hb]; exact bitsOfByte_length x
+        rw [show b0 :: (rest ++ List.flatMap bitsOfByte xs) = (b0 :: rest) ++ List.flatMap bitsOfByte xs by rfl,
+          List.take_left' this]
+      have h7 : (rest ++ List.flatMap bitsOfByte xs).drop 7 = List.flatMap bitsOfByte xs := by
+        have : rest.length = 7 := by
+          have : (b0 :: rest).length = 8 := by rw [← hb]; exact bitsOfByte_length x
+          simpa using this
+        rw [List.drop_left' this]
+      rw [h8, h7, ih, ← hb, byteOfBits_bitsOfByte]
+    | [], hl => simp at hl
+
+/-- Bit `k` of a packed bit vector, as `pointSign` reads it. -/
+def signBit (signs : Bytes) (k : Nat) : Bool := (signs.getD (k / 8) 0).toNat.testBit (k % 8)
+
+theorem pointSign_eq (signs : Bytes) (k : Nat) (h : k / 8 < signs.length) :
+    pointSign signs k = .ok (signBit signs k) := by
+  unfold pointSign signBit byteAt
+  have hne : signs.isEmpty = false := by
+    cases signs with
+    | nil => simp at h
+    | cons a b => rfl
+  rw [hne]
+  simp [List.getElem?_eq_getElem h, List.getD_eq_getElem?_getD]
+
+theorem bytesToBits_getD (s : Bytes) (k : Nat) (h : k < 8 * s.length) :
+    (bytesToBits s).getD k false = signBit s k := by
+  induction s generalizing k with
+  | nil => simp at h
+  | cons x xs ih =>
+    simp only [bytesToBits, List.flatMap_cons] at ih ⊢
+    by_cases hk : k < 8
+    · simp only [List.getD_eq_getElem?_getD]
+      rw [List.getElem?_append_left (by rw [bitsOfByte_length]; exact hk)]
+      unfold signBit
+      have : k / 8 = 0 := by omega
+      simp [this, bitsOfByte, hk, Nat.mod_eq_of_lt hk]
+    · simp only [List.getD_eq_getElem?_getD] at ih ⊢
+      rw [List.getElem?_append_right (by rw [bitsOfByte_length]; omega), bitsOfByte_length]
+      rw [ih (k - 8) (by simp only [List.length_cons] at h; omega)]
+      unfold signBit
+      have e1 : k / 8 = (k - 8) / 8 + 1 := by omega
+      have e2 : k % 8 = (k - 8) % 8 := by omega
+      rw [e1, e2]
+      simp
+
+theorem map_signBit_eq_bytesToBits (s : Bytes) :
+    (List.range (8 * s.length)).map (signBit s) = bytesToBits s := by
+  apply List.ext_getElem
+  · simp [bytesToBits_length]
+  · intro i h1 h2
+    simp only [List.getElem_map, List.getElem_range]
+    have := bytesToBits_getD s i (by simpa using h1)
+    rw [← this]
+    simp [List.getD_eq_getElem?_getD, h2]
 
 /-! ## chunks, labels, pairs, rows -/
 
